@@ -62,6 +62,8 @@ pub(crate) struct CommandWaker {
 impl Wake for CommandWaker {
     fn wake(self: Arc<Self>) {
         self.wake_by_ref();
+        #[cfg(crux_verif)]
+        crate::verif::point("cmd.wake.before_drop");
     }
 
     fn wake_by_ref(self: &Arc<Self>) {
@@ -69,11 +71,19 @@ impl Wake for CommandWaker {
         // nothing to do.
         // TODO: Does that mean we should bail, since waking ourselves is
         // now pointless?
+        #[cfg(crux_verif)]
+        crate::verif::point("cmd.wake.enter");
         let _ = self.ready_queue.send(self.task_id);
+        #[cfg(crux_verif)]
+        crate::verif::point("cmd.wake.sent");
         self.woken.store(true, Ordering::Release);
+        #[cfg(crux_verif)]
+        crate::verif::point("cmd.wake.stored");
 
         // Note: calling `wake` before `register` is a no-op
         self.parent_waker.wake();
+        #[cfg(crux_verif)]
+        crate::verif::point("cmd.wake.parent_woken");
     }
 }
 
@@ -185,6 +195,8 @@ impl<Effect, Event> Command<Effect, Event> {
     }
 
     pub(crate) fn run_task(&mut self, task_id: TaskId) -> TaskState {
+        #[cfg(crux_verif)]
+        crate::verif::point_val("cmd.run_task.enter", task_id.0 as u64);
         let Some(task) = self.tasks.get_mut(task_id.0) else {
             return TaskState::Missing;
         };
@@ -211,7 +223,14 @@ impl<Effect, Event> Command<Effect, Event> {
             Poll::Ready(_) => TaskState::Completed,
         };
 
+        #[cfg(crux_verif)]
+        crate::verif::point_val(
+            "cmd.run_task.polled",
+            u64::from(result == TaskState::Suspended),
+        );
         drop(waker);
+        #[cfg(crux_verif)]
+        crate::verif::point("cmd.run_task.dropped");
 
         // If the task is pending, but there's only one copy of the waker - our one -
         // it can never be woken up again so we most likely need to evict it.
@@ -220,9 +239,15 @@ impl<Effect, Event> Command<Effect, Event> {
         // Note that there is an exception: the task may have used the waker and dropped it,
         // making it ready, rather than abandoned.
         let task_is_ready = arc_waker.woken.load(Ordering::Acquire);
+        #[cfg(crux_verif)]
+        crate::verif::point_val("cmd.run_task.woken", u64::from(task_is_ready));
         if result == TaskState::Suspended && !task_is_ready && Arc::strong_count(&arc_waker) < 2 {
+            #[cfg(crux_verif)]
+            crate::verif::point("cmd.run_task.cancelled");
             return TaskState::Cancelled;
         }
+        #[cfg(crux_verif)]
+        crate::verif::point("cmd.run_task.kept");
 
         result
     }
